@@ -216,6 +216,18 @@ def handle (j : Json) : Json :=
       let env : Env Float := { dfx := if asis then { concatNilText := true } else .none, constants := consts }
       let data : Row Float := if wrapped then [("root", .obj doc)] else doc
       pure (outcome id (apiResult (execQuery env data {} q)))
+    | "compare" => do
+      let dec (k : String) : Except String (Option Cmp.GoVal) := do
+        let o ← j.getObjVal? k
+        let t ← (← o.getObjVal? "t").getStr?
+        let v ← (← o.getObjVal? "v").getStr?
+        pure (Cmp.parseGoVal t v)
+      match ← dec "a", ← dec "b" with
+      | some a, some b =>
+        match Cmp.compareGo a b with
+        | some c => pure (Json.mkObj [("id", id), ("r", "ok"), ("v", Json.num (JsonNumber.fromInt c))])
+        | none => pure (Json.mkObj [("id", id), ("r", "oom")])
+      | _, _ => pure (Json.mkObj [("id", id), ("r", "oom")])
     | o => throw s!"unknown op {o}"
   match res with
   | .ok j => j
